@@ -169,7 +169,8 @@ class Xunitary(Compiler):
 
                 for k, i in enumerate(sorted(indices, reverse=True)):
                     removed_cmd = B.pop(i)
-                    r += removed_cmd.op.p[0]
+                    # the inverse of S2gate(r, phi) is S2gate(-r, phi)
+                    r += -removed_cmd.op.p[0] if removed_cmd.op.dagger else removed_cmd.op.p[0]
                     phi_new = removed_cmd.op.p[1]
 
                     if k > 0 and phi_new != phi:
